@@ -155,27 +155,8 @@ func (w *World) OIterArray(c *Cont) error {
 		}
 	}
 	// invalid ranges
-	type bad struct {
-		s, e uint64
-		k    errKind
-	}
-	bads := []bad{{n + 1, n + 1, errSliceOOB}, {0, n + 1, errSliceOOB}, {n + 1, n + 2, errSliceOOB}, {1 << 40, 1 << 41, errSliceOOB}}
-	if n >= 1 {
-		bads = append(bads, bad{1, 0, errInvalidSlice}, bad{n, n - 1, errInvalidSlice})
-	}
-	for _, b := range bads {
-		_, err := a.ReadOnlyRangeIterator(b.s, b.e)
-		if e := checkErr(err, b.k, fmt.Sprintf("%sReadOnlyRangeIterator(%d,%d)", name, b.s, b.e)); e != nil {
-			return e
-		}
-		_, err = a.RangeIterator(b.s, b.e)
-		if e := checkErr(err, b.k, fmt.Sprintf("%sRangeIterator(%d,%d)", name, b.s, b.e)); e != nil {
-			return e
-		}
-		err = a.IterateReadOnlyRange(b.s, b.e, func(atree.Value) (bool, error) { return true, nil })
-		if e := checkErr(err, b.k, fmt.Sprintf("%sIterateReadOnlyRange(%d,%d)", name, b.s, b.e)); e != nil {
-			return e
-		}
+	if err := invalidRanges(a, name, n); err != nil {
+		return err
 	}
 	// mutable flavours (these install callbacks; the world is thrown away afterwards)
 	got, err = drainArr(a.Iterator())
@@ -609,6 +590,57 @@ func OReadOnlyMutation(w *World) error {
 			if !errors.As(err, &roe) {
 				return violf("mutating a child of c%d obtained from a read-only iterator returned %v, want the read-only mutation error", c.Serial, err)
 			}
+		}
+	}
+	return nil
+}
+
+
+// invalidRanges: every class of invalid (start, end) pair on every range entry point of an array must be refused
+// with the documented error type and the caller-mistake category (incl. IterateRange, the callback form of the
+// mutable range iterator, and empty ranges that lie past the end).
+func invalidRanges(a *atree.Array, name string, n uint64) error {
+	type bad struct {
+		s, e uint64
+		k    errKind
+	}
+	bads := []bad{{n + 1, n + 1, errSliceOOB}, {0, n + 1, errSliceOOB}, {n + 1, n + 2, errSliceOOB}, {n + 2, n + 2, errSliceOOB},
+		{1 << 40, 1 << 41, errSliceOOB}, {1 << 32, 1 << 32, errSliceOOB}, {^uint64(0), ^uint64(0), errSliceOOB}}
+	if n >= 1 {
+		bads = append(bads, bad{1, 0, errInvalidSlice}, bad{n, n - 1, errInvalidSlice})
+	}
+	for _, b := range bads {
+		_, err := a.ReadOnlyRangeIterator(b.s, b.e)
+		if e := checkErr(err, b.k, fmt.Sprintf("%sReadOnlyRangeIterator(%d,%d)", name, b.s, b.e)); e != nil {
+			return e
+		}
+		_, err = a.RangeIterator(b.s, b.e)
+		if e := checkErr(err, b.k, fmt.Sprintf("%sRangeIterator(%d,%d)", name, b.s, b.e)); e != nil {
+			return e
+		}
+		err = a.IterateReadOnlyRange(b.s, b.e, func(atree.Value) (bool, error) { return true, nil })
+		if e := checkErr(err, b.k, fmt.Sprintf("%sIterateReadOnlyRange(%d,%d)", name, b.s, b.e)); e != nil {
+			return e
+		}
+		err = a.IterateRange(b.s, b.e, func(atree.Value) (bool, error) { return true, nil })
+		if e := checkErr(err, b.k, fmt.Sprintf("%sIterateRange(%d,%d)", name, b.s, b.e)); e != nil {
+			return e
+		}
+	}
+	return nil
+}
+
+// ORanges: the invalid-range classes on every live array (C18: rejected requests are categorised).
+func ORanges(w *World) error {
+	for _, c := range w.Conts {
+		if c.Dead || c.IsMap {
+			continue
+		}
+		if err := w.EnsureHandle(c); err != nil {
+			return err
+		}
+		if err := invalidRanges(c.Arr, fmt.Sprintf("array c%d ", c.Serial), uint64(len(c.Elems))); err != nil {
+			return err
 		}
 	}
 	return nil
